@@ -23,22 +23,22 @@ import (
 	"strings"
 )
 
-func init() { gens["c13hist"] = genC13Hist }
+func init() { gens["c13hist"] = c13GenHist }
 
-type gfOld struct {
+type fOld struct {
 	obj   any
 	first string
 	desc  string
 }
 
-// gfHistory runs one history; returns the first difference ("" if none), the
+// fHistory runs one history; returns the first difference ("" if none), the
 // abstract entries and the number of queries evaluated.
-func gfHistory(r *rng, w *gfWorld, nq int) (diff string, entries []*gfEntry, t *gfTruth) {
+func fHistory(r *rng, w *fWorld, nq int) (diff string, entries []*fEntry, t *fTruth) {
 	t = w.truth()
-	pool := gfGenQueryPool(r, w, 6+r.n(12))
-	main := gfBuild(w.storage(nil, false))
+	pool := fGenQueryPool(r, w, 6+r.n(12))
+	main := fBuild(w.storage(nil, false))
 	defer func() { _ = main.s.Close() }()
-	var olds []gfOld
+	var olds []fOld
 	note := func(f string, a ...any) {
 		if diff == "" {
 			diff = fmt.Sprintf(f, a...)
@@ -48,28 +48,28 @@ func gfHistory(r *rng, w *gfWorld, nq int) (diff string, entries []*gfEntry, t *
 		q := pick(r, pool)
 		ans, obj := main.answer(q)
 		size := main.s.GetCacheSize()
-		if strings.Contains(ans, gfLawMarker) {
+		if strings.Contains(ans, fLawMarker) {
 			note("query %d %s: %s", i, q, ans)
 		}
 		// the same query as the first query of a fresh engine
 		fs := w.storage(nil, false)
-		fresh, _ := gfBuild(fs).answer(q)
+		fresh, _ := fBuild(fs).answer(q)
 		_ = fs.Close()
 		if fresh != ans {
 			note("query %d %s: after history %q, fresh %q", i, q, ans, fresh)
 		}
 		entries = append(entries, w.entries(t, q, obj, size)...)
-		olds = append(olds, gfOld{obj: obj, first: gfReser(obj), desc: fmt.Sprintf("result of query %d %s", i, q)})
+		olds = append(olds, fOld{obj: obj, first: fReser(obj), desc: fmt.Sprintf("result of query %d %s", i, q)})
 		// evaluate derived results on old result objects
 		for j := r.n(3); j > 0; j-- {
-			gfPoke(r, pick(r, olds).obj)
+			fPoke(r, pick(r, olds).obj)
 		}
 		if sz := main.s.GetCacheSize(); sz != size {
 			note("query %d: derived-result calls changed the cache size %d -> %d", i, size, sz)
 		}
 	}
 	for _, o := range olds {
-		if now := gfReser(o.obj); now != o.first {
+		if now := fReser(o.obj); now != o.first {
 			note("%s changed: first %q, now %q", o.desc, o.first, now)
 		}
 	}
@@ -77,18 +77,18 @@ func gfHistory(r *rng, w *gfWorld, nq int) (diff string, entries []*gfEntry, t *
 	return diff, entries, t
 }
 
-func gfModelLine(w *bufio.Writer, op string, t *gfTruth, closed []int, closeAt int, entries []*gfEntry, note string) {
+func fModelLine(w *bufio.Writer, op string, t *fTruth, closed []int, closeAt int, entries []*fEntry, note string) {
 	es := make([]string, len(entries))
 	obs := make([]string, len(entries))
 	for i, e := range entries {
 		es[i] = e.wire()
 		obs[i] = e.observed()
 	}
-	fmt.Fprintf(w, "%s %s %s %d %s = %s ## %s\n", op, t.wire(), gfInts(closed), closeAt, wlist(es...), strings.Join(obs, ","), note)
+	fmt.Fprintf(w, "%s %s %s %d %s = %s ## %s\n", op, t.wire(), fInts(closed), closeAt, wlist(es...), strings.Join(obs, ","), note)
 }
 
-func genC13Hist(r *rng, n int, w *bufio.Writer) {
-	gfSilenceLogs()
+func c13GenHist(r *rng, n int, w *bufio.Writer) {
+	fSilenceLogs()
 	// n = total number of queries over all histories
 	for done := 0; done < n; {
 		nq := 50 + r.n(451)
@@ -98,16 +98,16 @@ func genC13Hist(r *rng, n int, w *bufio.Writer) {
 		if nq < 10 {
 			nq = 10
 		}
-		world := gfGenWorld(r, 30, r.n(3))
-		diff, entries, t := gfHistory(r, world, nq)
+		world := fGenWorld(r, 30, r.n(3))
+		diff, entries, t := fHistory(r, world, nq)
 		ans := "T"
 		note := fmt.Sprintf("history of %d queries; %s", nq, world.describe())
 		if diff != "" {
 			ans = "F"
 			note = "FIRST DIFFERENCE: " + diff + "; " + note
 		}
-		fmt.Fprintf(w, "assert c13hist %d %d %s = %s ## %s\n", done, nq, gfHash(world.describe()), ans, strings.ReplaceAll(note, "\n", "\\n"))
-		gfModelLine(w, "c13model", t, nil, -1, entries, fmt.Sprintf("abstract trace of the history above (%d entries)", len(entries)))
+		fmt.Fprintf(w, "assert c13hist %d %d %s = %s ## %s\n", done, nq, fHash(world.describe()), ans, strings.ReplaceAll(note, "\n", "\\n"))
+		fModelLine(w, "c13model", t, nil, -1, entries, fmt.Sprintf("abstract trace of the history above (%d entries)", len(entries)))
 		world.cleanup()
 		done += nq
 	}
